@@ -42,9 +42,10 @@ where
 /// the upper level referring to nodes at level l or nodes at level l referring
 /// to nodes at the lower level.
 ///
-/// This function does not update the level numbers inside nodes. When multiple
-/// level swaps are needed to move a level to a different position, it should be
-/// faster to only write the new level numbers at the very end. To allow these
+/// This function does not write the final level numbers into the nodes. When
+/// multiple level swaps are needed to move a level to a different position, it
+/// should be faster to only write the new level numbers at the very end. (The
+/// function only ensures that all nodes of one level carry the same number.) To allow these
 /// lazy updates, we need to distinguish between the actual level numbers and
 /// the level numbers inside the nodes. We suffix the latter by `_pre` as they
 /// refer to the level numbers before the reordering operation started.
@@ -143,7 +144,10 @@ unsafe fn level_swap<M: Manager>(
                         children
                     }
                     node => {
-                        debug_assert!(node.level() > lower_no);
+                        // Note that `node.level()` is a level number from
+                        // before the reordering operation, so we cannot
+                        // compare it against `lower_no`.
+                        debug_assert_ne!(node.level(), upper_no_pre);
                         // The child is below the lower level, so we always have
                         // this child
                         (0..M::InnerNode::ARITY).map(|_| c.borrowed()).collect()
@@ -182,27 +186,43 @@ unsafe fn level_swap<M: Manager>(
             .collect();
 
         drop(grandchildren);
+        // Revisit the "old" children of `e`. If `node` holds the only
+        // reference to such a child at the old lower level, the child becomes
+        // dead once we replace the children of `node` below, and we can
+        // remove it. (A child might also be at some lower level, in which
+        // case the node could also be removed. However we must not access
+        // such a node.) The nodes stay valid until we remove them from
+        // `upper`, which still holds a reference.
+        let mut remove_candidates: SmallVec<[&M::InnerNode; 2]> = SmallVec::new();
         for child in children {
-            // Revisit the "old" children of `e`. If these are the only
-            // children, we may remove them, if they are on the old lower level.
-            // (A child might also be at some lower level, in which case the
-            // node could also be removed. However we must not access such a
-            // node.)
             if let Node::Inner(child_node) = manager.get_node(&*child)
                 && child_node.level() == lower_no_pre
                 && child_node.ref_count() == 1
             {
-                // The reference stems from the old `node`, whose children
-                // we replace below. Hence, we can remove child node.
-                upper.remove(child_node);
+                remove_candidates.push(child_node);
             }
         }
 
-        upper.insert(manager.clone_edge(e));
         for (i, child) in new_children.into_iter().enumerate() {
             // SAFETY: we have exclusive access to all nodes at the old upper
             // level and no child is borrowed.
             manager.drop_edge(unsafe { node.set_child(i, child) });
+        }
+        // The node stays at the upper level, where all other nodes currently
+        // have the level number `lower_no_pre`. Only insert the node after
+        // replacing its children, since they determine the hash value.
+        // SAFETY: the caller will update level numbers accordingly
+        unsafe {
+            node.set_level(lower_no_pre);
+            upper.insert_unchecked(manager.clone_edge(e));
+        }
+
+        for child_node in remove_candidates {
+            // The only remaining reference is the one of `upper`. Removing the
+            // node there drops it (and the references to its children).
+            if child_node.ref_count() == 0 {
+                upper.remove(child_node);
+            }
         }
     }
 
